@@ -273,7 +273,7 @@ fn main() {
     let n_sweep = ((sweep_years.len() + YCHUNK - 1) / YCHUNK) as u64;
     let dates = b_dates(tier);
     let small = b_dates_small();
-    let times = b_times(true);
+    let times = b_times_fracs(true);
     let offs_small = b_offsets_small().into_iter().filter(|o| o % 60 == 0).collect::<Vec<_>>();
     let offs_min = b_offsets_minutes();
     let nd = dates.len() as u64;
